@@ -41,8 +41,9 @@ func runC10(c *Ctx) {
 
 	// ---- C10.S
 	c.Rule("C10.S", "backend Set-Cookie never passes the session writer", 5)
-	c.Rule("C10.B", "no route around the session handler", 2)
+	c.Rule("C10.B", "no route around the session handler; no response replayed across requests", 3)
 	ruleOnlyWrappedBy(c, p, "C10.B")
+	ruleNoResponseReplay(c, p, "C10.B", "agent", "agent/sessions", "agent/banner", "agent/websockets", "agent/utils")
 	if wh != nil {
 		isDel := func(i ssa.Instruction) bool {
 			if !IsCall(i, "(net/http.Header).Del") {
